@@ -15,6 +15,8 @@ pub struct Drv<A: Cx> {
     /// when set, every line is written (and flushed) as it is produced and the call about to be
     /// made is recorded in `<path>.intent`, so that a crash of the process is attributable
     pub sink: Option<(std::io::BufWriter<std::fs::File>, String)>,
+    /// own stream for the decision to ask an observer a second time (does not disturb the scenario's)
+    pub again: Rng,
 }
 
 pub fn step(f: &str, a: usize, b: usize) -> Value {
@@ -31,7 +33,7 @@ pub fn sl(r: usize, a: usize, b: usize) -> Value {
 
 impl<A: Cx> Drv<A> {
     pub fn new(rng: Rng) -> Self {
-        Drv { w: World::new(), rng, out: Vec::new(), sink: None }
+        Drv { w: World::new(), rng, out: Vec::new(), sink: None, again: Rng::new(0xA6A1) }
     }
 
     pub fn stream_to(&mut self, path: &str) {
@@ -54,6 +56,14 @@ impl<A: Cx> Drv<A> {
         }
         let obs = self.w.exec(&op);
         self.log_line(merge(&op, obs.clone()).to_string());
+        // an observer changes nothing, so asking again must give the same answer (the specification
+        // is asked again too): every so often the very same call is made a second time
+        const PURE: [&str; 21] = ["hash", "obs", "str", "eq", "cmp", "toint", "kmers", "kminmax", "itrun", "itmix", "convert", "toamino",
+            "trytoamino", "trytocodon", "tableamino", "tablecodon", "contains", "kobs", "far", "mapget", "intoraw"];
+        if PURE.contains(&crate::world::gs(&op, "op")) && self.again.chance(1, 12) {
+            let second = self.w.exec(&op);
+            self.log_line(merge(&op, second).to_string());
+        }
         obs
     }
 
@@ -167,7 +177,7 @@ impl<A: Cx> Drv<A> {
         let c = A::NAME;
         let comp = matches!(c, "dna" | "iupac" | "mdna" | "miupac" | "degen" | "x3");
         let filler = self.codes()[0];
-        let pick = self.rng.below(15);
+        let pick = self.rng.below(18);
         match pick {
             0 => {
                 let text: Vec<u8> = content.iter().map(|&x| crate::world::sym::<A>(x).to_char() as u8).collect();
@@ -259,6 +269,12 @@ impl<A: Cx> Drv<A> {
                 self.emit(json!({"op": "fromsyms", "dst": 15, "c": c, "via": "iter", "syms": content}));
                 let t = *self.rng.pick(&["or", "and"]);
                 self.emit(json!({"op": "bitop", "dst": dst, "x": whole(15), "y": whole(15), "t": t, "via": "ref"}));
+            }
+            14 | 15 | 16 => {
+                // from bitvec's own types: an owned bit vector, one with spare capacity, a bit slice at an offset
+                let via = ["bv", "bvcap", "bs"][pick - 14];
+                let pad = self.rng.range(0, 130);
+                self.emit(json!({"op": "fromsyms", "dst": dst, "c": c, "via": via, "pad": pad, "syms": content}));
             }
             13 => {
                 let adaptor = *self.rng.pick(&ADAPTORS);
